@@ -303,7 +303,7 @@ PROPS["C02"] = {
 PROPS["C03"] = {
     "title": "Extensions and edges denote exactly the real adjacencies, symmetrically",
     "kani": lambda tier: exts(EXTS_ALL) + kfam(["k_rc", "k_extend_left", "k_extend_right"], tier),
-    "verus": [("graphfn", r"^(DebruijnGraph::|Node::|BaseGraph::)"), ("nodesall", r"^Node::(l_edges|r_edges|edges)$"),
+    "verus": [("graphfn", r"^(DebruijnGraph::|Node::|BaseGraph::)|^lemma_(merged_shape|merged_windows|rc_first|rc_last|overlap_rc|rc_bases|ext_bases2)$"), ("nodesall", r"^Node::(l_edges|r_edges|edges)$"),
               ("prune", r"^(remove_censored_exts_whole|remove_censored_exts_sharded_whole|pruned_exts|pruned_exts_sharded|lemma_search_table|lemma_search_list|lemma_table_has_keys)$"),
               ("maxpath", r"^commit_step$")],
     "bounded": lambda tier: [("filter::verif::f_remove_censored_3", "3 table entries, Kmer4, both strandedness values"),
@@ -312,12 +312,12 @@ PROPS["C03"] = {
     "undecided": [
         "set of resolvable edges == set of observed (K+1)-mers (needs the C05 kernel and C01)",
         "global symmetry u->v => v->u (a property of the constructed graph, not of one call)",
-        "max_path / max_path_beam (f32 scores, closures capturing closures, candidate scan over SmallVec edges) and sequence_of_path as wholes; of max_path the step that commits the chosen successor IS under contract (unit maxpath, rule R15: the successor is taken only if not yet used, is marked used and put on the proper end with the proper orientation - the step invariant behind 'no node repeated in a best path'); of sequence_of_path the body of its loop over the path IS under contract (graphfn::path_step, rule R15: one step appends the node's sequence - reverse complemented when traversed reversed - minus the K-1 bases overlapping the previous node), the loop header (enumerate + reference pattern) is not",
+        "max_path / max_path_beam (f32 scores, closures capturing closures, candidate scan over SmallVec edges) and sequence_of_path as wholes; of max_path the step that commits the chosen successor IS under contract (unit maxpath, rule R15: the successor is taken only if not yet used, is marked used and put on the proper end with the proper orientation - the step invariant behind 'no node repeated in a best path'); of sequence_of_path the body of its loop over the path IS under contract (graphfn::path_step, rule R15: one step appends the node's sequence - reverse complemented when traversed reversed - minus the K-1 bases overlapping the previous node), the loop header (enumerate + reference pattern) is not - the walk theorem is about the fold of that step",
         "remove_censored_exts(_sharded) ARE under contract as whole functions (unit prune: every entry keeps key and payload and keeps an extension exactly when it had it and the target k-mer is a table key - sharded: or is not a k-mer of this shard at all), but only relative to the ASSUMED contracts of the two std binary searches and the hypothesis that the slices are sorted as those searches require (token keys_sorted; for the table: a function of its keys only)"],
     "trust": VERUS_TRUST + GRAPH_TRUST + [SEAM_NOTE,
         "std slice binary searches (binary_search_by_key, binary_search): on a slice sorted as the search requires they answer Ok exactly when an element with that key / value exists (assumed; sortedness is the callers' obligation, token keys_sorted); k-mers are equal exactly when they spell the same bases (axiom_kmer_eq; Kani family k_eq_ord)",
         "graph well-formedness (DebruijnGraph::wf): every node has >= K bases; left_order/right_order map exactly the first/last k-mers of the nodes to their ids"],
-    "level_text": "find_link is proved to return Some((id, side, flip)) only for a node whose terminal k-mer on `side` equals the query (its reverse complement when flip), with (dir, side, flip) one of the four consistent shapes, flip only when unstranded and only when no same-strand match exists, and None exactly when no node end matches; find_edges (and the public Node::l_edges / r_edges / edges) returns only resolved links of the node's own extension bases and one for every extension base that resolves; get_valid_exts / fix_exts are proved exact: an extension is kept iff it was present and resolves to a valid (non-censored) node, dropped only if unresolvable or censored, and nothing but the extension vector changes (Verus, unbounded, real bodies incl. the check_node closure). remove_censored_exts and remove_censored_exts_sharded are proved, as whole functions, to leave keys and payloads untouched and to keep an extension exactly when it was present and its target k-mer is a key of the table (sharded: or is not among the shard's k-mers), given std's binary searches on sorted slices.",
+    "level_text": "find_link is proved to return Some((id, side, flip)) only for a node whose terminal k-mer on `side` equals the query (its reverse complement when flip), with (dir, side, flip) one of the four consistent shapes, flip only when unstranded and only when no same-strand match exists, and None exactly when no node end matches; find_edges (and the public Node::l_edges / r_edges / edges) returns only resolved links of the node's own extension bases and one for every extension base that resolves; get_valid_exts / fix_exts are proved exact: an extension is kept iff it was present and resolves to a valid (non-censored) node, dropped only if unresolvable or censored, and nothing but the extension vector changes (Verus, unbounded, real bodies incl. the check_node closure). remove_censored_exts and remove_censored_exts_sharded are proved, as whole functions, to leave keys and payloads untouched and to keep an extension exactly when it was present and its target k-mer is a key of the table (sharded: or is not among the shard's k-mers), given std's binary searches on sorted slices. THE WALK THEOREM (lemma_walk_spells, with lemma_edge_overlap / lemma_merged_windows): for any walk along reported edges - each next (node, arrival side) an edge reported for the previous node on the side the walk leaves it through - the sequence that sequence_of_path's proved loop step folds to contains, for every walked node and every offset, that node's k-mer (read in walking orientation) at a position computed from the preceding nodes' lengths, the position ranges of consecutive nodes are adjacent, and together they cover every k-mer of the spelled sequence: its k-mers are precisely the walked nodes' k-mers in order.",
     "level_note": "Partial claim (see undecided_clauses). Trusted: Verus/Z3, extractor rules, abstract BoomHashMap/BitSet/SmallVec contracts, the V<->K seam. Table pruning (remove_censored_exts, remove_censored_exts_sharded) is proved on the real bodies relative to the assumed std binary-search contracts (sortedness is the callers' obligation); the bounded Kani harnesses remain as cross-checks and fallbacks.",
 }
 
